@@ -66,6 +66,11 @@ def agree(ctx, label, ind, hx, names):
                     break
                 trailing += 1
             ctx.require(f"{label}: reading_count[{short}]", ind.reading_count(nm) == trailing, f"{ind.reading_count(nm)} vs {trailing}")
+        # every explicit position, counted from the front and from the back, through the Indicator and through the Hexital
+        for posn in range(len(direct)):
+            for idx in (posn, posn - len(direct)):
+                ctx.equal(f"{label}: Indicator.reading(index)==direct[{short}]", ind.reading(nm, index=idx), direct[posn])
+                ctx.equal(f"{label}: Hexital.reading(index)==direct[{short}]", hx.reading(nm, index=idx), direct[posn])
         if len(direct) >= 2:
             ctx.equal(f"{label}: prev_reading==direct[-2][{short}]", ind.prev_reading(nm), direct[-2])
             ctx.equal(f"{label}: Hexital.prev_reading==direct[-2][{short}]", hx.prev_reading(nm), direct[-2])
